@@ -42,6 +42,7 @@ fn dispatch(op: &str, args: &[Sexp]) -> String {
         "lef.lex" => crate::props::lef::op_lex(args),
         "lef.enum" => crate::props::lef::op_enum(args),
         "lef.dbu" => crate::props::lef::op_dbu(args),
+        "lef.wtokens" => crate::props::lef::op_wtokens(args),
         "lef.parse" => crate::props::lef::op_parse(args),
         "lef.read" => crate::props::lef::op_read(args),
         "lef.wr" => crate::props::lef::op_wr(args),
